@@ -4,9 +4,9 @@ package main
 
 import (
 	"fmt"
-	"os"
 	"go/ast"
 	"go/types"
+	"os"
 	"regexp"
 	"sort"
 	"strings"
@@ -538,10 +538,23 @@ func mapIntKeys(p *Program, pkgSuffix, name string) []string {
 // validateMsgCases: table names that have a case in the genesis validateMsg type switch which calls Validate().
 func validateMsgCases(m *Model, pkgSuffix string) map[string]bool {
 	out := map[string]bool{}
-	fn := findFn(m, pkgSuffix, "validateMsg")
-	if fn == nil {
-		return out
+	// every function of the genesis package reachable from its ValidateGenesis (whatever it is called)
+	var fns []*ssa.Function
+	if root := findFn(m, pkgSuffix, "ValidateGenesis"); root != nil {
+		g := NewGraph(m.P)
+		for f := range g.Closure([]*ssa.Function{root}) {
+			if g.isSubjectFn(f) && fnPkgPath(f) == fnPkgPath(root) {
+				fns = append(fns, f)
+			}
+		}
 	}
+	for _, fn := range fns {
+		validateCasesIn(m, fn, out)
+	}
+	return out
+}
+
+func validateCasesIn(m *Model, fn *ssa.Function, out map[string]bool) {
 	for _, b := range fn.Blocks {
 		for _, in := range b.Instrs {
 			ta, ok := in.(*ssa.TypeAssert)
@@ -578,7 +591,6 @@ func validateMsgCases(m *Model, pkgSuffix string) map[string]bool {
 			}
 		}
 	}
-	return out
 }
 
 func knownFalse(st *State, f string) bool {
